@@ -454,7 +454,8 @@ class Lifecycle:
                     # the evaluate(...).then(resolve).catch(reject) chain: both may happen
                     pass
                 if finalized or not conts:
-                    results.append(("final" if finalized else "stop", trace + [entry]))
+                    kind = "final" if finalized else ("raise" if ps.exit_kind == "raise" else "stop")
+                    results.append((kind, trace + [entry]))
                     count[0] += 1
                     if count[0] > max_traces:
                         raise AnalysisError("lifecycle trace explosion")
